@@ -57,7 +57,7 @@ Proof.
     rewrite (Hbo _ _ (bank_burn_only _ _ _ _ Hb)). apply Hbo. eapply bank_send_only; eassumption.
   - apply do_from_erc20_inv in H. destruct H as (t & s2 & _ & _ & _ & _ & Hm & Hp).
     rewrite (Hbo _ _ (bank_pay_only _ _ _ _ _ Hp)), (Hbo _ _ (bank_mint_only _ _ _ _ Hm)). reflexivity.
-  - unfold do_set_params in H. inv_if H. inversion H. reflexivity.
+  - unfold do_set_params in H. inv_if H. inv_if H. inversion H. reflexivity.
   - inversion H. reflexivity.
   - apply do_hook_inv in H. destruct H as (sym0 & t & s2 & _ & _ & _ & _ & _ & _ & Hm & Hp).
     rewrite (Hbo _ _ (bank_pay_only _ _ _ _ _ Hp)), (Hbo _ _ (bank_mint_only _ _ _ _ Hm)). reflexivity.
